@@ -171,13 +171,13 @@ func (x *Exec) collectEffects(fn *ssa.Function, blocks map[*ssa.BasicBlock]bool,
 						continue
 					}
 				}
-				if gw, ok := libGhostWrites[name]; ok || lookupLib(name) != nil {
+				if gw, ok := libGhostWrites[normLib(name)]; ok || lookupLib(name) != nil {
 					for _, g := range gw {
 						eff.ghosts[g] = true
 					}
 					// out-parameters of library functions (Unmarshal etc.)
 					for _, a := range c.Args {
-						if _, isPtr := types.Unalias(a.Type()).Underlying().(*types.Pointer); isPtr && libWritesPtrArgs[name] {
+						if _, isPtr := types.Unalias(a.Type()).Underlying().(*types.Pointer); isPtr && libWritesPtrArgs[normLib(name)] {
 							addWrite(a, true)
 						}
 					}
